@@ -153,6 +153,17 @@ def loop_traces(exe):
         rows.insert(i + 1, {"c": "poll", "n": 0, "tin": rows[i]["tout"], "tout": rows[i]["tout"], "timeout": -1, "res": "timeout", "devs": [], "arrK": [], "arrT": []})
     expect("E2 a call after the failing call -> C20 clause", run(t6, "afterfail"), ["C20-call-after-failure"])
 
+    def t6b(rows):   # the loop returns another error than the one the driver call failed with
+        i = idx(rows, lambda r: r.get("c") == "ret" and not r.get("ok"))
+        rows[i]["err"] = "something else went wrong"
+        rows[i]["errhas"] = False
+    expect("E2 another error returned than the injected one -> C20 clause", run(t6b, "othererr"), ["C20-error-not-returned"])
+
+    def t6c(rows):   # the loop returns the injected error with context added in front: still that error
+        i = idx(rows, lambda r: r.get("c") == "ret" and not r.get("ok"))
+        rows[i]["err"] = "Mapping failed: " + rows[i]["err"]
+    expect("E2 the injected error returned with context added -> accepted", run(t6c, "wrappederr"), [])
+
     def t7(rows):   # the hook for `send` is "removed": all send lines vanish
         return [r for r in rows if r.get("c") != "send"]
     expect("E2 every send line removed (a hook removed) -> missing-send clauses", run(t7, "nosend"), ["C10-send-missing-step", "C11-chord-missing"])
